@@ -133,7 +133,7 @@ func genStock(rng *vk.Rand) *refStock {
 
 func runVending(r *vk.Run) {
 	determineCup(r)
-	n := r.Pick(4000, 150000)
+	n := r.Pick(4000, 450000)
 	for i := 0; i < n; i++ {
 		if !r.Mine(i) {
 			continue
